@@ -206,6 +206,12 @@ func conclude(c *vf.Ctx, w *world) {
 		c.Count("unjudged:expiry-inside-bracket-or-margin", int64(r.InBracket))
 		c.Count("unjudged:not-yet-visible", int64(r.NotVisibleYet))
 		c.Count("query-observations", int64(len(sc.obs)))
+		if r.TransientMiss > 0 {
+			c.Inconclusive("transient-read-miss:point-returned-again-later(not-a-retention-effect)", int64(r.TransientMiss))
+		}
+		if r.MissNoFollowUp > 0 {
+			c.Inconclusive("miss-without-follow-up-observation", int64(r.MissNoFollowUp))
+		}
 		c.Distinct("expiring-point-position", sc.Spec.P1Class)
 		if len(sc.segs) > 0 {
 			switch d := sc.segs[0].D; {
